@@ -5,7 +5,7 @@ import random
 from vlib.rtc.lib import *  # noqa
 from vlib.rtc import hist
 
-RULE = ('(1) all interleavings of length <= 4 (quick 3) over {declare new, re-declare existing, add_var with explicit level '
+RULE = ('(1) all interleavings of length <= 4 (quick 3) over {declare new, declare several in one call (new ones, some twice, and declared ones), re-declare existing, add_var with explicit level '
         '(free / own / conflicting / occupied), build a function, drop, collect, swap, undeclare named subset, undeclare all '
         'unused, undeclare used (must be refused), undeclare unknown (must be refused)} on dd.bdd and dd.autoref; (2) '
         'random histories of 10-40 steps over up to 10 names (so that sets of levels exceed the small-int hash range), '
@@ -15,7 +15,7 @@ RULE = ('(1) all interleavings of length <= 4 (quick 3) over {declare new, re-de
 EXHAUSTIVE = {'quick': False, 'thorough': False}
 REQUIRED_COUNTERS = ['steps', 'refusals-checked', 'undeclare-checked']
 UNIVERSE = ['a', 'b', 'c', 'd', 'e', 'f', 'g', 'h', 'i', 'j']
-ALPHA = ['new', 'redeclare', 'level-free', 'level-own', 'level-conflict', 'level-occupied', 'build', 'drop', 'gc', 'swap',
+ALPHA = ['new', 'declare-many', 'redeclare', 'level-free', 'level-own', 'level-conflict', 'level-occupied', 'build', 'drop', 'gc', 'swap',
          'undecl-sub', 'undecl-all', 'undecl-used', 'undecl-unknown']
 
 
@@ -74,6 +74,20 @@ def do(sim, op, res):
         lv = m.add_var(x) if rnd.random() < .5 else (m.declare(x), b.vars[x])[1]
         require(lv == n and b.vars[x] == n, 'add_var#post:next-bottom-level', lambda: f'{x}: level {lv}, n was {n}')
         require(all(b.vars[y] == l for y, l in before.items()), 'add_var#post:others-unchanged', '')
+    elif op == 'declare-many' and free:
+        # one call naming several variables: new ones (some of them twice), already declared ones in between
+        new = rnd.sample(free, min(len(free), rnd.randint(1, 2)))
+        args = new + rnd.sample(new, rnd.randint(0, len(new))) + rnd.sample(declared, min(len(declared), rnd.randint(0, 2)))
+        rnd.shuffle(args)
+        before = dict(b.vars)
+        (b if rnd.random() < .5 else m).declare(*args)
+        first = []
+        for x in args:
+            if x not in before and x not in first:
+                first.append(x)
+        want = dict(before)
+        want.update({x: n + k for k, x in enumerate(first)})
+        require(dict(b.vars) == want, 'declare#post:new-names-at-the-bottom-in-order-of-first-mention', lambda: f'declare{tuple(args)}: {before} -> {dict(b.vars)}, expected {want}')
     elif op == 'redeclare' and declared:
         x = rnd.choice(declared)
         before = _state(b)
@@ -155,7 +169,7 @@ def case_random(c, res):
     rnd = random.Random(c['seed'])
     k = rnd.randint(2, 9)
     sim = S(rnd.choice(['bdd', 'autoref']), UNIVERSE[:k], universe=UNIVERSE, rnd=rnd)
-    w = [3, 1, 1, 1, 1, 1, 4, 3, 2, 2, 2, 2, 1, 1]
+    w = [3, 2, 1, 1, 1, 1, 1, 4, 3, 2, 2, 2, 2, 1, 1]
     # held functions use few variables so that many levels are empty and can be undeclared
     for _ in range(c['steps']):
         op = rnd.choices(ALPHA, w)[0]
